@@ -49,6 +49,16 @@ theorem execS_frame (D : Dom) (x : Nat) : ∀ (s : Stmt) (σ : Store D), x ∉ t
     simp only [targetsS, List.mem_singleton] at h
     simp only [execS]
     exact upd_other _ _ _ _ h
+  | .setDyn v vw w idx r, σ, h => by
+    simp only [targetsS, List.mem_singleton] at h
+    simp only [execS]
+    cases hi : D.idx σ.get idx with
+    | none => exact upd_other _ _ _ _ h
+    | some i =>
+      simp only []
+      split
+      · exact upd_other _ _ _ _ h
+      · rfl
   | .ite c t e, σ, h => by
     simp only [targetsS, List.mem_append, not_or] at h
     simp only [execS]
@@ -103,6 +113,7 @@ structure DomLocal (D : Dom) : Prop where
   cond : ∀ (σ σ' : Store D) (r : Rhs), (∀ x ∈ rhsVars r, σ x = σ' x) → D.cond σ r = D.cond σ' r
   arm : ∀ (σ σ' : Store D) (r : Rhs) (lw lv : Nat), (∀ x ∈ rhsVars r, σ x = σ' x) → D.arm σ r lw lv = D.arm σ' r lw lv
   arg : ∀ (σ σ' : Store D) (r : Rhs), (∀ x ∈ rhsVars r, σ x = σ' x) → D.arg σ r = D.arg σ' r
+  idx : ∀ (σ σ' : Store D) (r : Rhs), (∀ x ∈ rhsVars r, σ x = σ' x) → D.idx σ r = D.idx σ' r
   /-- a write to the whole variable does not look at the old value -/
   wfull : ∀ (l : Lhs), l.full = true → ∀ (a b n : D.Val), D.write a l n = D.write b l n
 
@@ -122,6 +133,7 @@ mutual
 fully assigned on every path -/
 def flowS (S : List Nat) : Stmt → Option (List Nat)
   | .set l r => if subset (rhsVars r) S then some (if l.full then l.var :: S else S) else none
+  | .setDyn _ _ _ idx r => if subset (rhsVars idx) S && subset (rhsVars r) S then some S else none
   | .ite c t e =>
     if subset (rhsVars c) S then
       match flowSs S t, flowSs S e with
@@ -154,6 +166,12 @@ def Agree {α : Type} (S : List Nat) (σ σ' : Nat → α) : Prop := ∀ x ∈ S
 
 mutual
 theorem flowS_mono (S : List Nat) : ∀ (s : Stmt) (S' : List Nat), flowS S s = some S' → ∀ x ∈ S, x ∈ S'
+  | .setDyn _ _ _ idx r, S', h, x, hx => by
+    simp only [flowS] at h
+    split at h
+    · cases h
+      exact hx
+    · cases h
   | .set l r, S', h, x, hx => by
     simp only [flowS] at h
     split at h
@@ -222,6 +240,12 @@ theorem flowArms_sub (S : List Nat) : ∀ (arms : Arms) (acc S' : List Nat), flo
 
 mutual
 theorem flowS_bound (S : List Nat) : ∀ (s : Stmt) (S' : List Nat), flowS S s = some S' → ∀ x ∈ S', x ∈ S ∨ x ∈ targetsS s
+  | .setDyn _ _ _ idx r, S', h, x, hx => by
+    simp only [flowS] at h
+    split at h
+    · cases h
+      exact Or.inl hx
+    · cases h
   | .set l r, S', h, x, hx => by
     simp only [flowS] at h
     split at h
@@ -291,6 +315,37 @@ theorem agree_sub {α : Type} {S T : List Nat} {σ σ' : Nat → α} (h : Agree 
 mutual
 theorem flowS_sound (D : Dom) (L : DomLocal D) (S : List Nat) : ∀ (s : Stmt) (S' : List Nat) (σ σ' : Store D),
     flowS S s = some S' → Agree S σ σ' → Agree S' (execS D s σ) (execS D s σ')
+  | .setDyn v vw w idx r, S', σ, σ', h, ha => by
+    simp only [flowS] at h
+    split at h
+    · rename_i hsub
+      simp only [Bool.and_eq_true] at hsub
+      cases h
+      have hr : D.rhs σ r w = D.rhs σ' r w := L.rhs σ σ' r w (fun x hx => ha x (subset_mem hsub.2 hx))
+      have hi : D.idx σ idx = D.idx σ' idx := L.idx σ σ' idx (fun x hx => ha x (subset_mem hsub.1 hx))
+      intro x hx
+      simp only [execS]
+      have hi' : D.idx σ.get idx = D.idx σ'.get idx := hi
+      rw [← hi']
+      cases hii : D.idx σ.get idx with
+      | none =>
+        simp only []
+        by_cases hxv : x = v
+        · subst hxv
+          rw [upd_same, upd_same]
+        · rw [upd_other _ _ _ _ hxv, upd_other _ _ _ _ hxv]
+          exact ha x hx
+      | some i =>
+        simp only []
+        split
+        · by_cases hxv : x = v
+          · subst hxv
+            have hr' : D.rhs σ.get r w = D.rhs σ'.get r w := hr
+            rw [upd_same, upd_same, hr', ha _ hx]
+          · rw [upd_other _ _ _ _ hxv, upd_other _ _ _ _ hxv]
+            exact ha x hx
+        · exact ha x hx
+    · cases h
   | .set l r, S', σ, σ', h, ha => by
     simp only [flowS] at h
     split at h
